@@ -1672,7 +1672,16 @@ def np_nditer(it, a, flags=(), op_flags=None, **k):
         a = to_carr(a)
     if not isinstance(a, CArr):
         raise Unsupported('nditer over a symbolic-shape array')
-    idxs = list(np.ndindex(*a.shape))
+    # numpy's default iteration order is the MEMORY order of the operand ('K'): the model's storage is a numpy object array with the layout the same
+    # operations give the real array (a transposed view stays a strided view), so numpy itself supplies the order of the multi-indices
+    if a.size and a.ndim > 1 and not a.data.flags['C_CONTIGUOUS']:
+        probe = np.nditer(a.data, flags=['multi_index', 'refs_ok'], order='K')
+        idxs = []
+        while not probe.finished:
+            idxs.append(tuple(probe.multi_index))
+            probe.iternext()
+    else:
+        idxs = list(np.ndindex(*a.shape))
     return Obj(None, {'arr': a, 'idxs': idxs, 'pos': 0, 'flags': list(flags), 'op_flags': op_flags}, tag='nditer')
 
 
@@ -1704,6 +1713,7 @@ def _nditer_set(it, o, idx, v):
 
 
 S.OBJ_SETITEM['nditer'] = _nditer_set
+S.OBJ_ITER['nditer'] = lambda it, o: [o.fields['arr'].data[i] for i in o.fields['idxs'][o.fields['pos']:]]     # for v in np.nditer(a): the remaining values, iterator order
 
 
 # ------------------------------------------------------------------------------------------------ scipy.sparse (concrete shape; dense backing)
